@@ -212,6 +212,37 @@ def run(ck: Check):
                     ck.violation(f"diff_test: both runs time out after printing {oa!r} / {ob!r} ({'log files' if mode else 'in memory'}): "
                                  f"got {got}, documented meaning {oa != ob}",
                                  {"module": "diff_test", "timeout": "both", "stdout_a": oa, "stdout_b": ob, "files": mode is not None})
+        # the two runs are two real EXECUTIONS, however alike their command lines: a program that behaves differently from
+        # one execution to the next (intermittent, stateful) under -a/-b spellings that expand to the same arguments
+        flaky = os.path.join(work, "flaky.py")
+        with open(flaky, "w") as f:
+            f.write("#!" + PY + "\nimport sys,os\ncf, kind = sys.argv[-2], sys.argv[-1]\n"
+                    "n = int(open(cf).read() or 0) if os.path.exists(cf) else 0\nopen(cf, 'w').write(str(n + 1))\n"
+                    "second = n % 2 == 1\n"
+                    "if kind == 'out' and second: sys.stdout.write('x')\n"
+                    "if kind == 'err' and second: sys.stderr.write('x')\n"
+                    "sys.stdout.write('common\\n'); sys.stdout.flush()\n"
+                    "os._exit(3 if (kind == 'code' and second) else 0)\n")
+        os.chmod(flaky, 0o755)
+        fi = 0
+        for a_args, b_args in (("", ""), ("X", "X"), ("X -y", " X  -y "), ("X", "Y")):
+            for kind in ("out", "err", "code", "same"):
+                for mode in (None, os.path.join(work, "flaky")):
+                    fi += 1
+                    cf = os.path.join(work, f"count{fi}")
+                    try:
+                        got = diff_test.interesting(["-t", "20", "-a", a_args, "-b", b_args, flaky, cf, kind], mode)
+                    except BaseException as exc:  # pylint: disable=broad-except
+                        got = "raised " + type(exc).__name__
+                    execs = int(open(cf).read()) if os.path.exists(cf) else 0
+                    ck.count("diff_test")
+                    ck.nontrivial(("diff-flaky", a_args, b_args, kind, mode is not None))
+                    if got is not (kind != "same") or execs != 2:
+                        ck.violation(f"diff_test -a {a_args!r} -b {b_args!r} on a program whose second execution differs in "
+                                     f"'{kind}' ({'log files' if mode else 'in memory'}): got {got} after {execs} execution(s); "
+                                     f"documented meaning {kind != 'same'} from two runs",
+                                     {"module": "diff_test", "a_args": a_args, "b_args": b_args, "second_run_differs_in": kind,
+                                      "files": mode is not None, "executions": execs})
         # ------------------------------------------------------------ repeat
         calls = []
         inner = types.ModuleType("lv_inner_test")
